@@ -26,7 +26,7 @@ func init() { register(c13{}) }
 func (c13) ID() string    { return "C13" }
 func (c13) Level() string { return "fault_enumeration" }
 func (c13) Rule() string {
-	return "for bodies {empty, 1 B, 100 B text, 5 KiB text, 70 KiB incompressible, 200 KiB multi-block} written through the real cache.CreateLevel/Write/Close (chunked like the CLI's 4 KiB bufio writer): (1) control: the finished entry opens and reads back exactly the body; (2) every byte offset x {8 single-bit masks, 0x00, 0xFF, complement} of the finished file (all offsets for files <= 8 KiB and for the 60-byte header of every file, sampled offsets beyond: quick 300, thorough 20000 per file); (3) every truncation length (all for small files, all header lengths + sampled for big ones); (4) appended tails {1 B, 60 B, a whole second entry}; (5) the entry stored under the name of a different root/data digest and opened with the other key, and opened in place with a different rsum or dsum; (6) crash points through hook H1 on the real write path: after create, after the placeholder header, before every body write, after flate close, after the body hash, before the final header, tear:K for every K in 0..60, after the header - each followed by cache.Open; (7) the real CLI `gts clear|reverse|complement` SIGKILLed at every H1/H2 point of its own write path, and run under strace with ENOSPC/EIO injected into the N-th write(2) on the cache entry for every N; then the identical command run clean over the same cache directory must equal the uncached reference (and a faulted run that exits 0 must have printed the reference output). Oracle: Open err==nil => ReadAll == exactly the written body; every damaged state must fail to open. non-trivial: a fault was actually applied (state differs from the finished entry); distinct: (body, fault kind, parameter)."
+	return "for bodies {empty, 1 B, 100 B text, 5 KiB text, 70 KiB incompressible, 200 KiB multi-block} written through the real cache.CreateLevel/Write/Close (chunked like the CLI's 4 KiB bufio writer): (1) control: the finished entry opens and reads back exactly the body; (2) every byte offset x {8 single-bit masks, 0x00, 0xFF, complement} of the finished file (all offsets for files <= 8 KiB and for the 60-byte header of every file, sampled offsets beyond: quick 300, thorough 20000 per file); (3) every truncation length (all for small files, all header lengths + sampled for big ones); (4) appended tails {1 B, 60 B, a whole second entry}; (5) the entry stored under the name of a different root/data digest and opened with the other key, and opened in place with a different rsum or dsum; (6) crash points through hook H1 on the real write path: after create, after the placeholder header, before every body write, after flate close, after the body hash, before the final header, tear:K for every K in 0..60, after the header - each followed by cache.Open; (7) the real CLI `gts clear|reverse|complement` SIGKILLed at every H1/H2 point of its own write path, and run under strace with ENOSPC/EIO injected into the N-th write(2) on the cache entry for every N; then the identical command run clean over the same cache directory must equal the uncached reference (and a faulted run that exits 0 must have printed the reference output); (8) whole entries through the CLI: a 2.6 MB three-record FASTA stream through gts reverse / gts complement -F fasta twice over one cache directory (the second run is a traced hit), and two different inputs on stdin with the same arguments, each twice, every run equal to its --no-cache reference. Oracle: Open err==nil => ReadAll == exactly the written body; every damaged state must fail to open. non-trivial: a fault was actually applied (state differs from the finished entry); distinct: (body, fault kind, parameter)."
 }
 func (c13) Assumptions() []string {
 	return []string{"crash = process death with the operating system surviving (bytes handed to write(2) persist, bytes buffered in the flate writer are lost); no fsync / power-loss model",
@@ -36,7 +36,7 @@ func (c13) Assumptions() []string {
 func (c13) RequiredBuckets(tier string) []string {
 	return []string{"control:clean-entry-reads-back", "flip:header", "flip:body", "truncate", "extend", "wrong-key:renamed", "wrong-key:in-place",
 		"crash:created", "crash:placeholder", "crash:body-write", "crash:flate-closed", "crash:hashed", "crash:pre-header", "crash:post-header", "tear",
-		"fault:open-failed", "cli:crash-then-clean-run", "body:empty", "body:multi-block"}
+		"fault:open-failed", "cli:crash-then-clean-run", "cli:multi-MiB-output", "cli:two-inputs,-same-arguments", "body:empty", "body:multi-block"}
 }
 
 type body struct {
@@ -499,6 +499,78 @@ func (m c13) cliCrashes(c *fw.Ctx) {
 			}
 		}
 		m.cliIOErrors(c, env, args, input, ref.Stdout, ref.Exit)
+	}
+	m.cliEntries(c, env, input)
+}
+
+// cliEntries looks at whole entries through the command line: an output of
+// several MiB (many deflate blocks) is replayed byte for byte, and an entry
+// written for one input is not what a different input given on stdin with the
+// same arguments is answered with.
+func (m c13) cliEntries(c *fw.Ctx, env *cli.Env, phix []byte) {
+	to := 120 * time.Second
+	// three FASTA records, 2.6 MB together, not compressible to nothing.
+	var big bytes.Buffer
+	r := c.SubRng("c13-big")
+	for rec := 0; rec < 3; rec++ {
+		fmt.Fprintf(&big, ">big%d\n", rec)
+		for l := 0; l < 12000+rec*500; l++ {
+			line := make([]byte, 70)
+			for i := range line {
+				line[i] = "acgtacgtnryk"[r.Intn(12)]
+			}
+			big.Write(line)
+			big.WriteByte('\n')
+		}
+	}
+	other := bytes.Replace(phix, []byte("gagttttatcgcttccatga"), []byte("gagttttatcgcttccatgc"), 1)
+	if bytes.Equal(other, phix) {
+		other = append(append([]byte{}, phix...), phix...)
+	}
+	type job struct {
+		name   string
+		args   []string
+		inputs [][]byte // run in this order over one cache directory, the first one again at the end
+	}
+	jobs := []job{
+		{"multi-MiB output", []string{"reverse"}, [][]byte{big.Bytes()}},
+		{"multi-MiB output", []string{"complement", "-F", "fasta"}, [][]byte{big.Bytes()}},
+		{"two inputs, same arguments", []string{"reverse"}, [][]byte{phix, other}},
+		{"two inputs, same arguments", []string{"clear"}, [][]byte{other, phix}},
+	}
+	for _, j := range jobs {
+		if !c.NextShared() {
+			continue
+		}
+		enc := fmt.Sprintf("cli gts %v: %s (%d inputs over one cache directory, then the first again)", j.args, j.name, len(j.inputs))
+		c.Begin(enc)
+		c.Count(enc, true)
+		env.ResetCache()
+		seq := append(append([][]byte{}, j.inputs...), j.inputs...)
+		hits := 0
+		for step, in := range seq {
+			ref := env.Run(append(append([]string{}, j.args...), "--no-cache"), in, nil, to)
+			if ref.TimedOut || ref.Exit != 0 {
+				c.Inconclusive(fmt.Sprintf("reference run of gts %v failed: exit %d %s", j.args, ref.Exit, clipS(string(ref.Stderr), 300)))
+				return
+			}
+			env.TruncTrace()
+			got := env.Run(j.args, in, nil, to)
+			for _, ev := range env.ReadTrace() {
+				if ev.Ev == "hit" {
+					hits++
+				}
+			}
+			if got.TimedOut || got.Exit != ref.Exit || !bytes.Equal(got.Stdout, ref.Stdout) {
+				c.Violate("cli:entry-replayed-differs:"+strings.ReplaceAll(j.name, " ", "-"), enc, fmt.Sprintf("step %d: exit %d, %d bytes (sha1 %s) as with --no-cache", step+1, ref.Exit, len(ref.Stdout), sha(ref.Stdout)),
+					fmt.Sprintf("exit %d, %d bytes (sha1 %s)", got.Exit, len(got.Stdout), sha(got.Stdout)))
+				break
+			}
+		}
+		if hits == 0 {
+			c.Inconclusive("no cache hit was traced in: " + enc)
+		}
+		c.Bucket("cli:" + strings.ReplaceAll(j.name, " ", "-"))
 	}
 }
 
